@@ -71,7 +71,7 @@ def _zero(x):
 def _requestor(case):
     from pynetdicom2 import applicationentity, sopclass, dimsemessages
     local, pmax = case['local'], case['peer']
-    world = SimWorld('c10/%s/%s/%s' % (case['seed'], local, pmax))
+    world = SimWorld('c10/%s/%s/%s' % (case['seed'], local, pmax), with_fs=True)
     viol = []
     try:
         got_back = []
@@ -101,7 +101,14 @@ def _requestor(case):
                     msg.message_id = i + 1
                     msg.sop_class_uid = FIND
                     msg.priority = 0
-                    msg.data_set = b'Q' * n
+                    if (i + case['seed']) % 2:
+                        # data set handed over as a file object positioned behind a header
+                        world.fs.put('/src/q%d' % i, b'HDR!' + b'Q' * n)
+                        fp = world.fs.open('/src/q%d' % i, 'rb')
+                        fp.seek(4)
+                        msg.data_set = fp
+                    else:
+                        msg.data_set = b'Q' * n
                     a.send(msg, 1)
                     rsp, pcid = a.receive()
                     got_back.append(len(rsp.data_set or b''))
